@@ -276,6 +276,7 @@ def runCq (id : String) (h : List String) (body : List String) : String := Id.ru
               | _, _ => none
             | ["cancel", k] => k.toNat?.map .cancel
             | ["fetch"] => some .fetch
+            | ["peek"] => some .peek
             | _ => none
           match op? with
           | none => return fail "kind=badline"
